@@ -417,6 +417,16 @@ func startsDependenciesInline(f *ssa.Function, before ssa.Instruction) bool {
 }
 
 // c10Stop: stop returns nil only from the stopped channel or when already Loaded; the channel is closed only when the group is empty.
+// isStateWordLoad: v is (a conversion of) an atomic load of a field named state.
+func isStateWordLoad(v ssa.Value) bool {
+	c, ok := strip(v).(*ssa.Call)
+	if !ok || !isAtomic(c.Common()) || !strings.HasPrefix(staticCallee(c.Common()).Name(), "Load") {
+		return false
+	}
+	_, path, okp := fieldPath(c.Common().Args[0])
+	return okp && len(path) > 0 && path[len(path)-1] == "state"
+}
+
 func c10Stop(p *load.Program, r *core.Report, rule string, stop, term *ssa.Function) {
 	rid := strings.SplitN(rule, " ", 2)[0]
 	r.Floor(rule, 2)
@@ -439,7 +449,7 @@ func c10Stop(p *load.Program, r *core.Report, rule string, stop, term *ssa.Funct
 			if !okb || b.Op != token.EQL {
 				return
 			}
-			if c, okc := constInt(b.Y); okc && c == st["ApplicationStateLoaded"] {
+			if c, okc := constInt(b.Y); okc && c == st["ApplicationStateLoaded"] && isStateWordLoad(b.X) {
 				t, _, _ := boolEdges(b)
 				if edgesDominate(t, ret) {
 					okLoaded = true
